@@ -63,7 +63,8 @@ impl Default for Profile {
 }
 
 pub const OBJ_FAULTS: [ObjFault; 7] = [ObjFault::BadSig, ObjFault::Garbage, ObjFault::Expired, ObjFault::NotYetValid, ObjFault::Revoked, ObjFault::WrongCrlUri, ObjFault::Overclaim];
-pub const CERT_FAULTS: [CertFault; 10] = [
+pub const CERT_FAULTS: [CertFault; 11] = [
+    CertFault::CycleTo(1),
     CertFault::BadSig,
     CertFault::Garbage,
     CertFault::Expired,
@@ -158,10 +159,13 @@ pub fn decode_forest(d: &mut D, p: &Profile) -> Vec<Ca> {
         let module = d.below(p.modules);
         let not_after = d.pick(&[86400i64 * 365, 86400 * 3, 3600 * 6]);
         let versions = (0..p.versions).map(|v| decode_version(d, p, v)).collect();
-        cas.push(Ca { parent, key: i, module, not_after, cert_fault, versions });
+        cas.push(Ca { parent, key: i, module, not_after, cert_fault, versions, extra_res: None });
     }
     // LoopKey(2) needs a grandparent; degrade to LoopKey(1) otherwise
     for i in 0..cas.len() {
+        if let Some(CertFault::CycleTo(n)) = cas[i].cert_fault {
+            let _ = n;
+        }
         if let Some(CertFault::LoopKey(2)) = cas[i].cert_fault {
             let has_gp = cas[i].parent.and_then(|p| cas[p].parent).is_some();
             if !has_gp {
@@ -177,7 +181,7 @@ pub fn single_run(words: &[u16], p: &Profile) -> Scenario {
     let mut d = D::new(words);
     let cfg = decode_cfg(&mut d, p.vary_cfg);
     let cas = decode_forest(&mut d, p);
-    let steps = vec![Step { publish: vec![0; cas.len()], fail_modules: vec![], offline: false }];
+    let steps = vec![Step { publish: vec![0; cas.len()], fail_modules: vec![], offline: false, stale: None }];
     Scenario { cfg, cas, steps }
 }
 
@@ -277,7 +281,7 @@ pub fn history_run(words: &[u16], hp: &HistProfile) -> Scenario {
             .collect();
         let fail_modules = (0..p.modules).filter(|_| d.chance(hp.fail_module_16, 16)).collect();
         let offline = s > 0 && d.chance(hp.offline_16, 16);
-        steps.push(Step { publish, fail_modules, offline });
+        steps.push(Step { publish, fail_modules, offline, stale: None });
     }
     Scenario { cfg, cas, steps }
 }
